@@ -7,7 +7,7 @@
    for |d|, the product of the squared norms, the zero vector. *)
 From Coq Require Import ZArith List Bool String.
 From Flocq Require Import IEEE754.BinarySingleNaN IEEE754.Binary IEEE754.Bits.
-From Verif Require Import Simd.NonNeg Simd.SelfZero Simd.Model Simd.Proofs Generated.Facts.
+From Verif Require Import Simd.NonNeg Simd.SelfZero Simd.Symmetric Simd.Model Simd.Proofs Generated.Facts.
 Import ListNotations.
 Open Scope list_scope.
 
@@ -83,9 +83,22 @@ Example C15_self_distance_nonvacuous :
   Forall fin a /\ bits (avx_euclid a a) = 0%Z /\ bits (sse_manhattan true a a) = 0%Z.
 Proof. split; [repeat constructor|]. split; vm_compute; reflexivity. Qed.
 
+
+(* "symmetric": for every pair of equal-length vectors of finite values, of any length, d(a, b) and d(b, a) are the same
+   bit pattern - Euclidean, Manhattan and cosine, in all three implementations.  (NaN and infinite components are
+   excluded: which NaN payload an operation propagates depends on the operand order.) *)
+Theorem C15_symmetric : forall (a b : list f32) al, List.length a = List.length b -> Forall fin a -> Forall fin b ->
+  (native_euclid a b = native_euclid b a /\ avx_euclid a b = avx_euclid b a /\ sse_euclid al a b = sse_euclid al b a) /\
+  (native_manhattan a b = native_manhattan b a /\ avx_manhattan a b = avx_manhattan b a /\ sse_manhattan al a b = sse_manhattan al b a) /\
+  (native_cosine a b = native_cosine b a /\ avx_cosine a b = avx_cosine b a /\ sse_cosine al a b = sse_cosine al b a).
+Proof.
+  intros a b al L Fa Fb. split; [apply euclid_symmetric; auto|]. split; [apply manhattan_symmetric; auto|apply cosine_symmetric; auto].
+Qed.
+
 Print Assumptions C15_reads_exact.
 Print Assumptions C15_lane_is_sequential.
 Print Assumptions C15_avx_short_exact.
 Print Assumptions C15_sse_short_exact.
 Print Assumptions C15_never_negative.
 Print Assumptions C15_self_distance_zero.
+Print Assumptions C15_symmetric.
